@@ -187,7 +187,7 @@ func idxgenHdrTable(file []byte) Val {
 	return hdrs
 }
 
-var c03SourceNames = []string{"bytes.Reader", "read-seeker", "plain-reader", "os.File", "reader-at", "bufio.Reader", "bytes.Buffer", "iotest.DataErrReader", "iotest.HalfReader", "iotest.OneByteReader", "ReadOrGenerateIndex(bytes.Reader)", "ReadOrGenerateIndex(read-seeker)"}
+var c03SourceNames = []string{"bytes.Reader", "read-seeker", "plain-reader", "os.File", "reader-at", "bufio.Reader", "bytes.Buffer", "iotest.DataErrReader", "iotest.HalfReader", "iotest.OneByteReader", "ReadOrGenerateIndex(bytes.Reader)", "ReadOrGenerateIndex(read-seeker)", "GenerateIndexFromFile", "GenerateIndexFromFile(missing)"}
 
 func emitIdxGen(c *Ctx, kind uint64, o gOpts, file []byte, codec uint64, qs []cid.Cid, expect Val, nontrivial bool) {
 	hdrs := idxgenHdrTable(file)
@@ -368,6 +368,13 @@ func init() {
 					}
 					for kind := uint64(10); kind < 12; kind++ {
 						emitIdxGen(c, kind, o, a.file, codec, qs, exp, len(a.blks) >= 2 && feat)
+					}
+					// GenerateIndexFromFile: the archive as a file on disk; once per archive a missing path
+					if rep == 0 {
+						emitIdxGen(c, 12, o, a.file, codec, qs, expect, len(a.blks) >= 2 && feat)
+					}
+					if rep == 0 && codec == 0x0400 {
+						emitIdxGen(c, 13, o, a.file, codec, qs, VL{VT("none")}, false)
 					}
 				}
 				expect = VL{VT("valid"), VN(a.hlen), blksVal(a.blks), VB(a.payload), vbool(a.padded)}
